@@ -377,8 +377,17 @@ func (x *Exec) escape(st *State, v Value) Value {
 		// identities of objects that exist already (inputs, earlier iterations of a cut loop)
 		// are positive and nil is 0: a negative constant is a fresh identity, distinct from all
 		// of them and from the other objects allocated on this path
-		st.nalloc++
-		id := mkInt(int64(-st.nalloc))
+		var id *Term
+		if t.cell.id <= st.cutMark {
+			// the object existed before the innermost cut loop was entered: earlier iterations may
+			// already have stored it into the (havocked) array, so its identity is an unknown
+			// non-nil one, not a fresh one
+			id = freshVar("obj$id", SInt)
+			st.axiom(mkNot(mkEq(id, mkInt(0))))
+		} else {
+			st.nalloc++
+			id = mkInt(int64(-st.nalloc))
+		}
 		rp := &Ptr{cell: x.regionCell(t.cell.typ), sym: id}
 		x.storeTo(st, rp, content)
 		st.store[t.cell] = &Fwd{to: rp}
